@@ -331,6 +331,9 @@ fn user_disconnect(name: String, params: Value) -> Scenario {
         // a Maximum Packet Size may refuse the DISCONNECT (and the requests around it): a refused
         // DISCONNECT was not written, so it is no reason for run() to return
         let m = [None, Some(8u32), Some(12)][chz.choose(3)];
+        // whatever the transport answers to a shutdown of the write half (should the client attempt
+        // one): run() returns Ok(()) once the DISCONNECT has been written
+        sys.w.wire.borrow_mut().close_mode = chz.choose(3) as u8;
         sys.bring_up(m.map(|m| vec![Prop::u32(P_MAXIMUM_PACKET_SIZE, m)]).unwrap_or_default());
         let reason = DISCONNECT_REASONS[chz.choose(DISCONNECT_REASONS.len())];
         let spec = DisconnectSpec {
